@@ -18,7 +18,7 @@ import sys
 import threading
 import time
 
-ROOT = os.environ.get("VERIF_ROOT", "/verif")
+ROOT = os.environ.get("VERIF_ROOT") or os.path.dirname(os.path.dirname(os.path.dirname(os.path.abspath(__file__))))
 REPO = os.environ.get("VERIF_REPO", "/repo")
 SPEC = os.path.join(ROOT, "spec")
 EVID = os.path.join(ROOT, "evidence")
@@ -295,7 +295,7 @@ class Worker:
             self.start()
         cfg = job.get("cfg") or SHIPPED_CFG
         req = {"cwd": self.slot, "cfgkey": job.get("cfgkey") or cfg, "args": job["args"],
-               "eof_budget": job.get("eof_budget", 10000), "read_budget": job.get("read_budget", 3000000),
+               "eof_budget": job.get("eof_budget", 10000), "read_budget": job.get("read_budget", 300000),
                "trace": bool(job.get("trace")), "digest": job.get("digest", "")}
         line = (json.dumps(req) + "\n").encode()
         # no thread per job: thread creation is as slow as process creation in this sandbox
